@@ -3,7 +3,7 @@ from engine.core import Report
 from engine import ch
 
 STY = ('qmark', 'format', 'numeric', 'named', 'pyformat')
-HARNESSES = tuple('adapt_single_' + s for s in STY) + tuple('adapt_history_' + s for s in STY) + ('adapt_history_styles', 'rawsql_single', 'rawsql_history', 'adapt_history_keys', 'rawsql_history_keys')
+HARNESSES = tuple('adapt_single_' + s for s in STY) + tuple('adapt_history_' + s for s in STY) + ('adapt_history_styles', 'rawsql_single', 'rawsql_history', 'adapt_history_keys', 'rawsql_history_keys', 'adapt_multi', 'raw_scope')
 
 
 def classify(spec, cex):
